@@ -383,6 +383,8 @@ type c05RemoteSpec struct {
 	Chunks []GenChunk `json:"chunks"`
 	Faults []c05Fault `json:"faults"`
 	Seed   int64      `json:"seed"`
+	// BurstMs: both proxies forward only at ticks this far apart
+	BurstMs int `json:"burst_ms,omitempty"`
 }
 
 func genC05Remote(rng *rand.Rand, idx int, thorough bool) *c05RemoteSpec {
@@ -404,6 +406,13 @@ func genC05Remote(rng *rand.Rand, idx int, thorough bool) *c05RemoteSpec {
 	}
 	for i := 0; i < nf; i++ {
 		sp.Faults = append(sp.Faults, c05Fault{Kind: kinds[rng.Intn(len(kinds))], AtPct: 5 + rng.Intn(85), ForMs: 300 + rng.Intn(1700)})
+	}
+	if idx == 2 || (thorough && idx%5 == 2) {
+		sp.BurstMs = 700 + rng.Intn(500)
+		sp.Faults = nil
+		if rng.Intn(2) == 0 {
+			sp.Faults = []c05Fault{{Kind: "cutLM", AtPct: 30 + rng.Intn(40), ForMs: 500}}
+		}
 	}
 	if idx == 1 || (thorough && idx%5 == 1) {
 		// the submitting node itself is SIGKILLed while part of the output is mirrored and restarted on its data
@@ -436,6 +445,9 @@ func c05Remote(run *ev.Run, dir string, sp *c05RemoteSpec) {
 	}
 	defer R.Kill()
 	pMR, _ := ctl.NewProxy(fmt.Sprintf("127.0.0.1:%d", R.ListenPort), false)
+	if sp.BurstMs > 0 {
+		pMR.SetBurst(time.Duration(sp.BurstMs) * time.Millisecond)
+	}
 	defer pMR.Close()
 	M := ctl.NewDaemon(ctl.Cfg{ID: "m", Dir: filepath.Join(dir, "m"), Listen: true, Peers: []string{pMR.Addr}})
 	if err := M.Start(); err != nil {
@@ -445,6 +457,11 @@ func c05Remote(run *ev.Run, dir string, sp *c05RemoteSpec) {
 	defer M.Kill()
 	pLM, _ := ctl.NewProxy(fmt.Sprintf("127.0.0.1:%d", M.ListenPort), false)
 	defer pLM.Close()
+	if sp.BurstMs > 0 {
+		// a bursty path: what the far nodes send within one period reaches the submitting node back to back
+		pLM.SetBurst(time.Duration(sp.BurstMs) * time.Millisecond)
+		run.Count("remote_trials_over_a_bursty_path", 1)
+	}
 	L := ctl.NewDaemon(ctl.Cfg{ID: "l", Dir: filepath.Join(dir, "l"), Peers: []string{pLM.Addr}, Work: genw})
 	if err := L.Start(); err != nil {
 		run.Inconclusive("C05 remote: " + err.Error())
